@@ -70,8 +70,13 @@ def build_lib(variant="default", cc="gcc", extra_flags=(), tag=None):
         if os.path.exists(so):
             return d
         # remove stale builds of this variant of this tree (disk)
+        # (only builds not touched for 20 minutes: a check that started before the tree changed may still be using its build)
         for old in glob.glob(os.path.join(BUILD, "lib-%s-%s-*" % (tag or variant, rh))):
-            shutil.rmtree(old, ignore_errors=True)
+            try:
+                if time.time() - os.path.getmtime(old) > 1200:
+                    shutil.rmtree(old, ignore_errors=True)
+            except OSError:
+                pass
         os.makedirs(os.path.join(d, "obj"), exist_ok=True)
         procs = []
         objs = []
@@ -238,7 +243,7 @@ def coq_props(prop_v, timeout=600):
                 assum[nme] = []
             else:
                 assum[nme] = sorted(set(m.group(1) for m in re.finditer(r"^([A-Za-z_][\w\.']*)\s*(?::|$)", b, re.M)
-                                        if m.group(1) != "Axioms"))
+                                        if m.group(1) not in ("Axioms", "Warning", "File", "make", "COQC", "COQDEP", "Finished")))
     return ok, log, assum
 
 
